@@ -7,7 +7,7 @@ validity flags, lazy caches realised before being read."""
 import re
 
 from ..facts import extract_split, extract, units_matching, Program, AnalysisBroken, sx_find, sx_enums, sx_str
-from ..match import (ev_write, is_call, call_args, call_obj, field_of, var_of, guard_blocks, lvalue_root, branch_edges, switch_default_edges)
+from ..match import (emptied_before, ev_write, is_call, call_args, call_obj, field_of, var_of, guard_blocks, lvalue_root, branch_edges, switch_default_edges)
 from .c18 import _in_loop, _is_lit, _is_var
 
 ALLOC = re.compile(r"::allocate(DiscreteVariable|AutoUpdateDiscreteVariable|CacheEntry|LazyCacheEntry|CacheEntryWithPrerequisites)$")
@@ -19,7 +19,7 @@ VEL = re.compile(r"::(getU|getOneU|getUAsVector|getQDot|getOneQDot|getQDotAsVect
                  r"get\w*Velocity\w*|find\w*Velocity\w*|calc\w*Velocity\w*|get\w*Acceleration\w*|find\w*Acceleration\w*|"
                  r"getMobilizerVelocity|getH_FMCol|getHCol)$")
 UNITS_QUICK = r"/Simbody/src/(Force[^/]*|GeneralForceSubsystem|CableSpring|CablePath|CableSpan|ContactTrackerSubsystem|GeneralContactSubsystem|" \
-              r"CompliantContactSubsystem|HuntCrossley[^/]*|ElasticFoundationForce|SmoothSphereHalfSpaceForce|ExponentialSpringForce|Constraint[^/]*|Motion|MobilizedBody)\.cpp$"
+              r"CompliantContactSubsystem|HuntCrossley[^/]*|ElasticFoundationForce|SmoothSphereHalfSpaceForce|ExponentialSpringForce|Constraint[^/]*|Motion|MobilizedBody|SimbodyMatterSubsystemRep)\.cpp$"
 HDR = r"/Simbody/src/.*\.h$|/Simbody/include/"
 FS = "SimTK::GeneralForceSubsystemRep"
 GI = "SimTK::Force::GravityImpl"
@@ -162,8 +162,44 @@ def run(chk, tier, overlays=()):
     gravity(chk, P, S)
     cached_forces_flag(chk, P)
     manual_flags(chk, P)
+    refill(chk, P)
     chk.assumptions += ["user-defined Custom force/constraint/measure code is out of scope",
                         "reads of state made through SBStateDigest are not attributed to variables (matter subsystem internals are covered only by the lazy-cache rules)"]
+
+
+# ---------------------------------------------------------------- REFILL
+
+CACHE_SRC = re.compile(r"::(upd\w*Cache\w*|updCacheEntry|updDiscreteVarUpdateValue)$")
+
+
+def refill(chk, P):
+    chk.rule("REFILL", "a container that lives in a cache entry (a member of an object obtained from upd...Cache / updCacheEntry, or such an object itself) and is filled by "
+             "appending (push_back / emplace_back / insert) is emptied first, on every path of the same realization function -- by clear() / resize() on it or by a method "
+             "of the cache object that does so on all its paths: otherwise entries of an earlier realization of the same State survive and results depend on history")
+    n = 0
+    for f in sorted(P.all_fns(), key=lambda f: f.id):
+        decls = {d["var"]: d for _, _, d in f.events(lambda d: d["k"] == "decl")}
+        caches = {v for v, d in decls.items() if d.get("init") is not None and sx_find(d["init"], lambda y: y[0] == "call" and CACHE_SRC.search(str(y[1])))}
+        if not caches:
+            continue
+        for b, i, e in f.calls():
+            if not str(e.get("fn", "")).endswith(("::push_back", "::emplace_back", "::insert")):
+                continue
+            o = call_obj(e)
+            if isinstance(o, list) and o and o[0] == "var" and o[1] in caches:
+                fld, cv = None, o[1]
+            elif isinstance(o, list) and o and o[0] == "mem" and var_of(o[1]) in caches:
+                fld, cv = o[2], var_of(o[1])
+            else:
+                continue
+            n += 1
+            p = emptied_before(P, f, e, cv, fld)
+            src = sx_find(decls[cv]["init"], lambda y: y[0] == "call" and CACHE_SRC.search(str(y[1])))[0][1].split("::")[-1]
+            what = fld.split("::")[-1] if fld else src
+            cnt = sum(1 for _b, _i, _e in f.calls() if _e.get("fn") == e.get("fn") and call_obj(_e) == o and _e["line"] <= e["line"])
+            chk.judge(p is None, "REFILL", "%s:%s#%d" % (f.name.replace("SimTK::", ""), what, cnt), "%s:%d" % (f.file, e["line"]),
+                      "%s (in the cache object from %s) is appended to without having been emptied on this path" % (what, src), p)
+    chk.floor("REFILL", 10)
 
 
 # ---------------------------------------------------------------- POSONLY
@@ -453,6 +489,8 @@ _F = "Simbody/src/ForceImpl.h"
 _G = "Simbody/src/Force_Gravity.cpp"
 _S = "Simbody/src/GeneralForceSubsystem.cpp"
 MUTATIONS = [
+    dict(name="seeded (sub-agent): one instance-cache index list is no longer emptied before the partition is rebuilt", arm=True, file="Simbody/src/SimbodyMatterSubsystemRep.cpp",
+         old="    ic.presUDot.clear();    ic.zeroUDot.clear();    ic.freeUDot.clear();", new="    ic.presUDot.clear();    ic.freeUDot.clear();", expect="REFILL:SimbodyMatterSubsystemRep::realizeSubsystemInstanceImpl:zeroUDot"),
     dict(name="LinearBushing parameters invalidate only Dynamics", file=_LB,
          old="            .allocateDiscreteVariable(s, Stage::Instance, \n                                      new Value<InstanceVars>(iv));",
          new="            .allocateDiscreteVariable(s, Stage::Dynamics, \n                                      new Value<InstanceVars>(iv));", expect="STAGE:SimTK::Force::LinearBushingImpl::"),
